@@ -453,6 +453,15 @@ class SGen(SBase):
 
 def new_like(shape, elems, dtype, scalar=False):
     n = len(elems)
+    dtype = _dt(dtype)
+    if dtype.kind in INT_KINDS:
+        for e in elems:
+            if (isinstance(e, SNum) and not e.isint) or isinstance(e, float):
+                raise CheckerError('engine invariant: non-integer element %r in an array of dtype %s' % (e, dtype))
+    elif dtype.kind == 'f':
+        for e in elems:
+            if isinstance(e, SNum) and e.isint:
+                raise CheckerError('engine invariant: Int-sorted element in a float array')
     idx = _np.arange(n).reshape(shape)
     if scalar and idx.ndim == 0:
         return SGen(list(elems), idx, dtype)
